@@ -2,7 +2,7 @@
 
 from collections.abc import Callable, Sequence
 from copy import copy
-from functools import reduce
+from functools import partial, reduce
 from inspect import signature
 from operator import matmul, mul
 from typing import Any
@@ -951,7 +951,12 @@ def solve_sylvester_diagonal(
         eigs_A, eigs_B = eigs[index[0]], eigs[index[1]]
 
         if index[0] != index[1] and index[:2] not in index_checked:
-            compare = np.equal if isinstance(Y, sympy.MatrixBase) else np.isclose
+            # Use the documented absolute tolerance, not numpy's default of 1e-8.
+            compare = (
+                np.equal
+                if isinstance(Y, sympy.MatrixBase)
+                else partial(np.isclose, atol=atol)
+            )
 
             if np.any(compare(eigs_A.reshape(-1, 1), eigs_B.reshape(1, -1))):
                 raise ValueError("The subspaces must not share eigenvalues.")
